@@ -195,9 +195,11 @@ func (u *Unit) unknownCall(st *State, instr ssa.Instruction, name string, sig *t
 // ------------------------------------------------------------- contracts
 
 func (u *Unit) contractCall(st *State, instr ssa.Instruction, fs *FuncSpec, name string, args []Value, sig *types.Signature, dynamic bool) []callRes {
+	subst := u.typeSubstOf(instr)
 	site := fmt.Sprintf("call.%s#%d", name, u.siteOrdinal(instr))
 	env := u.newEnv(st)
 	env.names = map[string]SV{}
+	env.typeSubst = subst
 	// parameter names: from the block header for callbacks/methods, from the
 	// callee's ssa params for functions.
 	pnames := fs.Params
@@ -277,6 +279,7 @@ func (u *Unit) contractCall(st *State, instr ssa.Instruction, fs *FuncSpec, name
 		env2.names[k] = x
 	}
 	env2.old = pre
+	env2.typeSubst = subst
 	env2.acq = pre // acq() in a callee's postcondition: its critical section lies within the call
 	env2.calleeGhost = map[string]T{}
 	st.lastCalleeGhost = env2.calleeGhost
@@ -1449,4 +1452,35 @@ func (u *Unit) isPrivateArr(st *State, sl T) bool {
 		}
 	}
 	return false
+}
+
+// typeSubstOf: for a call of an instantiated generic function, the mapping
+// from the callee's type parameter names to the type arguments of this call.
+func (u *Unit) typeSubstOf(instr ssa.Instruction) map[string]types.Type {
+	var cc *ssa.CallCommon
+	switch x := instr.(type) {
+	case *ssa.Call:
+		cc = &x.Call
+	case *ssa.Defer:
+		cc = &x.Call
+	case *ssa.Go:
+		cc = &x.Call
+	}
+	if cc == nil {
+		return nil
+	}
+	fn := cc.StaticCallee()
+	if fn == nil || fn.Origin() == nil {
+		return nil
+	}
+	tps := fn.Origin().TypeParams()
+	targs := fn.TypeArgs()
+	if tps.Len() != len(targs) {
+		return nil
+	}
+	m := map[string]types.Type{}
+	for i := 0; i < tps.Len(); i++ {
+		m[tps.At(i).Obj().Name()] = targs[i]
+	}
+	return m
 }
